@@ -159,6 +159,10 @@ Fixpoint by_pos_copyable (lv : list (bool * kind)) (row : list cell) : bool :=
   | [], _ :: _ => false
   end.
 
+(* the property's reading of the method names: XxxPartial forms are the partial (non-strict) ones *)
+Definition spec_strict (m : meth) : bool :=
+  match m with MQueryRow | MQueryRows => true | MQueryRowPartial | MQueryRowsPartial => false end.
+
 (* nothing copied: every field is nil or zero *)
 Definition blank (lv : list (bool * kind)) (d : dst) : bool :=
   Nat.eqb (List.length d) (List.length lv) &&
